@@ -208,12 +208,15 @@ def hg_inputs(tier, rng):
         fams = FAMS if tier == "thorough" else (FAMS[mask % 4],)
         for f in fams:
             out.append((3 if mask % 3 else 4, es, False, f, True if mask % 2 else None, False))
-    # (ii) hypergraphs on 4 nodes (2^15 of them): a seeded sample
+    # (ii) hypergraphs on 4 nodes (2^15 of them): thorough all of them, quick a seeded sample
     e4 = all_edges(4)
-    for i in range(60 if tier == "quick" else 2500):
-        mask = rng.getrandbits(len(e4)) & rng.getrandbits(len(e4)) if rng.random() < 0.6 else rng.getrandbits(len(e4))
-        es = [e4[j] for j in range(len(e4)) if mask >> j & 1]
-        out.append((4, es, False, FAMS[i % 4], None, False))
+    if tier == "thorough":
+        for mask in range(1 << len(e4)):
+            out.append((4, [e4[j] for j in range(len(e4)) if mask >> j & 1], False, FAMS[mask % 4], None, False))
+    else:
+        for i in range(60):
+            mask = rng.getrandbits(len(e4)) & rng.getrandbits(len(e4)) if rng.random() < 0.6 else rng.getrandbits(len(e4))
+            out.append((4, [e4[j] for j in range(len(e4)) if mask >> j & 1], False, FAMS[i % 4], None, False))
     # (iii) random, 2..6 nodes, sizes 1..5, weighted and unweighted
     for i in range(80 if tier == "quick" else 2500):
         n = rng.randint(2, 6)
@@ -263,6 +266,29 @@ def build_temp(b, n, recs, weighted, rng):
 
 
 # ---------------------------------------------------------------------------
+def _observe_chunk(job):
+    """build and observe a slice of the inputs; input number i uses its own generator derived from (seed, i)"""
+    kind, seed, start, items = job
+    cs, ds = [], []
+    for off, it in enumerate(items):
+        rng = random.Random((seed * 1000003 + start + off) * 2 + (kind == "temp"))
+        if kind == "hg":
+            n, es, weighted, fam, all_nodes, tensor = it
+            b = Binding("hg", LABEL_FAMILIES[fam](n), rng)
+            obj = build_hg(b, n, es, weighted, rng, all_nodes=all_nodes)
+            cs.append(observe_hg(b, obj, rng, tensor=tensor))
+            ds.append({"kind": "hg", "n": n, "hyperedges": [list(e) for e in es], "weighted": weighted,
+                       "family": fam, "labels": b.labels, "input_no": start + off})
+        else:
+            n, recs, weighted, fam = it
+            b = Binding("temp", LABEL_FAMILIES[fam](n), rng)
+            obj = build_temp(b, n, recs, weighted, rng)
+            cs.append(observe_temp(b, obj, rng))
+            ds.append({"kind": "temp", "n": n, "hyperedges": [[list(e), t] for e, t in recs], "weighted": weighted,
+                       "family": fam, "labels": b.labels, "input_no": start + off})
+    return cs, ds
+
+
 def strip(c):
     """the logged record without the bulky state, for replay payloads"""
     return {k: v for k, v in c.items() if k != "st"}
@@ -282,60 +308,76 @@ def run(tier, seed):
         explore(res, "temp", tier, module="MC_Matrices", invariants=TEMP_INV,
                 configs=[dict(n=3, maxw=1, batches=False, metaops=False, xs=[0, 1], weighted=False)])
     rng = random.Random(seed)
-    t0 = time.time()
-    cases, descr = [], []
-    for (n, es, weighted, fam, all_nodes, tensor) in hg_inputs(tier, rng):
-        b = Binding("hg", LABEL_FAMILIES[fam](n), rng)
-        obj = build_hg(b, n, es, weighted, rng, all_nodes=all_nodes)
-        cases.append(observe_hg(b, obj, rng, tensor=tensor))
-        descr.append({"kind": "hg", "n": n, "hyperedges": [list(e) for e in es], "weighted": weighted,
-                      "family": fam, "labels": b.labels})
-    tcases, tdescr = [], []
-    for (n, recs, weighted, fam) in temp_inputs(tier, rng):
-        b = Binding("temp", LABEL_FAMILIES[fam](n), rng)
-        obj = build_temp(b, n, recs, weighted, rng)
-        tcases.append(observe_temp(b, obj, rng))
-        tdescr.append({"kind": "temp", "n": n, "hyperedges": [[list(e), t] for e, t in recs], "weighted": weighted,
-                       "family": fam, "labels": b.labels})
-    t_py = time.time() - t0
-    v1 = K.run_cases("Trace_C09", cases, {"Kind": "hg"}, procs=14)
-    v2 = K.run_cases("Trace_C09", tcases, {"Kind": "temp"}, procs=8)
-    for v, cs, ds in ((v1, cases, descr), (v2, tcases, tdescr)):
-        for idx, failed in v["rejects"]:
-            d = ds[idx]
-            raised = sorted({r.get("exc", "") for r in _records(cs[idx]) if r.get("raised")})
-            res.reject({"clauses": failed, "labels": d["family"] if d["family"] == "zero" else "other"},
-                       "%s disagree(s) with Matrices.tla for the %s%s hypergraph %s on %d nodes labelled %s%s"
-                       % (",".join(failed), "weighted " if d["weighted"] else "", "temporal" if d["kind"] == "temp" else "",
-                          d["hyperedges"], d["n"], d["labels"], (" [raised: %s]" % "; ".join(raised)) if raised else ""),
-                       {"case": d, "logged": strip(cs[idx]), "state": cs[idx]["st"]})
-    for cs, ds in ((cases, descr), (tcases, tdescr)):
-        for c, d in zip(cs, ds):
-            bad = nonint(c)
-            if bad:
-                res.reject({"clauses": ["integer_entries"], "matrices": bad},
-                           "non-integral entries in %s for hypergraph %s (labels %s)" % (bad, d["hyperedges"], d["labels"]),
-                           {"case": d, "logged": strip(c)})
-    nm = sum(len(list(_records(c))) for c in cases + tcases)
-    res.cov(traces_validated_against_impl=len(cases) + len(tcases), matrices_validated=nm,
-            validator_states=v1["states"] + v2["states"],
-            distinct_hypergraphs=len({(d["n"], str(d["hyperedges"])) for d in descr}),
-            temporal_hypergraphs=len(tcases),
-            tensor_cases=sum(1 for c in cases if "tensor" in c),
-            weighted_cases=sum(1 for d in descr if d["weighted"]),
-            label_families=len({d["family"] for d in descr}),
-            python_wall_s=round(t_py, 1), validator_wall_s=round(v1["wall"] + v2["wall"], 1))
-    for i in (len(cases) - 1, len(cases) // 2):
-        c = cases[i]
-        res.sample({"input": descr[i], "adjacency": c["adj"], "binary_incidence": c["binc"]})
-    res.sample({"input": tdescr[-1], "temporal_adjacency": tcases[-1]["tadj"]})
+    hin, tin = hg_inputs(tier, rng), temp_inputs(tier, rng)
+    agg = {"cases": 0, "mats": 0, "states": 0, "t_py": 0.0, "t_tlc": 0.0, "hgs": set(), "temporal": 0, "tensor": 0,
+           "weighted": 0, "fams": set()}
+    pool = None
+    if tier != "quick":
+        import multiprocessing as mp
+        pool = mp.get_context("fork").Pool(12)
+    try:
+        # rounds bound the memory: observe a slice (in parallel), validate it, keep only rejections and samples
+        for kind, items in (("hg", hin), ("temp", tin)):
+            for start in range(0, len(items), ROUND):
+                _round(res, kind, seed, start, items[start:start + ROUND], pool, agg)
+    finally:
+        if pool is not None:
+            pool.close()
+            pool.join()
+    res.cov(traces_validated_against_impl=agg["cases"], matrices_validated=agg["mats"], validator_states=agg["states"],
+            distinct_hypergraphs=len(agg["hgs"]), temporal_hypergraphs=agg["temporal"], tensor_cases=agg["tensor"],
+            weighted_cases=agg["weighted"], label_families=len(agg["fams"]),
+            exhaustive_4_nodes=(tier == "thorough"),
+            python_wall_s=round(agg["t_py"], 1), validator_wall_s=round(agg["t_tlc"], 1))
     res.assume("returned matrices are densified by the harness; every entry must be an integral number (checked in Python) and is compared as an integer by TLC",
                "the Laplacian carries no mapping: its rows are read through the mapping returned by adjacency_matrix_by_order for the same order (the statement's identity L = d*D - A is entrywise)",
                "hyperedge numbering of the dual adjacency: listing order of get_edges(); any other consistent numbering is accepted for <= 6 hyperedges",
                "per-order variants, degree matrix and Laplacians are exercised on unweighted hypergraphs only (as the statement says); laplacian_matrices_all_orders only when there is a hyperedge",
                "temporal: a time without hyperedges may be absent from the result; the mapping at time t may cover any node set between the nodes alive at t and all nodes",
-               "thorough: all 128 hypergraphs on 3 nodes under 4 label families; 4-node and larger ones are seeded samples")
+               "thorough: all 128 hypergraphs on 3 nodes under 4 label families and all 32768 hypergraphs on 4 nodes (label family by rotation); quick: the 128 on 3 nodes and a seeded sample on 4; larger ones are seeded samples")
     return res.finish()
+
+
+ROUND = 6000
+
+
+def _round(res, kind, seed, start, items, pool, agg):
+    t0 = time.time()
+    jobs = [(kind, seed, start + i, items[i:i + 250]) for i in range(0, len(items), 250)]
+    outs = pool.map(_observe_chunk, jobs, chunksize=1) if pool is not None else [_observe_chunk(j) for j in jobs]
+    cases = [c for cs, _ in outs for c in cs]
+    descr = [d for _, ds in outs for d in ds]
+    agg["t_py"] += time.time() - t0
+    t0 = time.time()
+    v = K.run_cases("Trace_C09", cases, {"Kind": kind}, procs=14, per_batch=min(450, max(10, len(cases) // 14 + 1)))
+    agg["t_tlc"] += time.time() - t0
+    for idx, failed in v["rejects"]:
+        d = descr[idx]
+        raised = sorted({r.get("exc", "") for r in _records(cases[idx]) if r.get("raised")})
+        res.reject({"clauses": failed, "labels": d["family"] if d["family"] == "zero" else "other"},
+                   "%s disagree(s) with Matrices.tla for the %s%s hypergraph %s on %d nodes labelled %s%s"
+                   % (",".join(failed), "weighted " if d["weighted"] else "", "temporal" if d["kind"] == "temp" else "",
+                      d["hyperedges"], d["n"], d["labels"], (" [raised: %s]" % "; ".join(raised)) if raised else ""),
+                   {"case": d, "seed": seed, "logged": strip(cases[idx]), "state": cases[idx]["st"]})
+    for c, d in zip(cases, descr):
+        bad = nonint(c)
+        if bad:
+            res.reject({"clauses": ["integer_entries"], "matrices": bad},
+                       "non-integral entries in %s for hypergraph %s (labels %s)" % (bad, d["hyperedges"], d["labels"]),
+                       {"case": d, "seed": seed, "logged": strip(c)})
+    agg["cases"] += len(cases)
+    agg["mats"] += sum(len(list(_records(c))) for c in cases)
+    agg["states"] += v["states"]
+    agg["fams"] |= {d["family"] for d in descr}
+    if kind == "hg":
+        agg["hgs"] |= {(d["n"], str(d["hyperedges"])) for d in descr}
+        agg["tensor"] += sum(1 for c in cases if "tensor" in c)
+        agg["weighted"] += sum(1 for d in descr if d["weighted"])
+        c = cases[len(cases) // 2]
+        res.sample({"input": descr[len(cases) // 2], "adjacency": c["adj"], "binary_incidence": c["binc"]}, cap=3)
+    else:
+        agg["temporal"] += len(cases)
+        res.sample({"input": descr[-1], "temporal_adjacency": cases[-1]["tadj"]}, cap=4)
 
 
 def _records(c):
